@@ -34,7 +34,9 @@ AllKinds == << "nil", "bool", "int", "int_neg", "int8", "int64", "uint", "uint8"
                \* functions whose (omitted) last parameter implements the helper-context interface without being HelperContext:
                \* a pointer to it, a struct embedding it, a larger interface; containers whose element / key type is a non-empty
                \* interface; two struct types that print the same name with the field Name at index 3 and at index 0
-               "func_ptrhc", "func_embhc", "func_bigifacehc", "slice_stringer1", "map_str_error", "map_stringer_int", "twin_big", "twin_small" >>
+               "func_ptrhc", "func_embhc", "func_bigifacehc", "slice_stringer1", "map_str_error", "map_stringer_int", "twin_big", "twin_small",
+               \* functions that return NO value (any number of arguments); a struct with such a method (Touch)
+               "func_void", "func_void_variadic" >>
 \* a smaller set for the third variable of three-variable forms
 ValueKinds == << "nil", "int", "str", "float64", "bool", "slice_any", "map_str_any", "struct", "ptr_struct", "func0" >>
 KindSet(s) == {s[i] : i \in 1..Len(s)}
@@ -66,7 +68,17 @@ FormsOf(fam) ==
            [n |-> "setlit", vars |-> 2, src |-> C(<<"let", " ", "h", " ", "=", " ", "LBR", "k", ":", " ", "1", "RBR">>) \o C(<<"h", "[", "a", "]", " ", "=", " ", "b">>) \o E(<<"h", "[", "QUOT", "k", "QUOT", "]">>)],
            [n |-> "setarr", vars |-> 2, src |-> C(<<"let", " ", "x", " ", "=", " ", "[", "1", ",", " ", "2", "]">>) \o C(<<"x", "[", "a", "]", " ", "=", " ", "b">>) \o E(<<"x">>)],
            [n |-> "assign", vars |-> 2, src |-> C(<<"a", " ", "=", " ", "b">>) \o E(<<"a">>)],
-           [n |-> "append", vars |-> 2, src |-> C(<<"let", " ", "x", " ", "=", " ", "a", " ", "+", " ", "b">>) \o E(<<"x">>)] }
+           [n |-> "append", vars |-> 2, src |-> C(<<"let", " ", "x", " ", "=", " ", "a", " ", "+", " ", "b">>) \o E(<<"x">>)],
+           \* what a + b gives is used further: indexed, iterated, measured, extended again, asked for a member / method
+           \* (the method names are those of the evaluator's reflection handle, which the result once was)
+           [n |-> "appendidx", vars |-> 2, src |-> E(<<"(", "a", " ", "+", " ", "b", ")", "[", "0", "]">>)],
+           [n |-> "appendlen", vars |-> 2, src |-> E(<<"len", "(", "a", " ", "+", " ", "b", ")">>)],
+           [n |-> "appendagain", vars |-> 2, src |-> E(<<"a", " ", "+", " ", "b", " ", "+", " ", "b">>)],
+           [n |-> "appenditer", vars |-> 2, src |-> E(<<"for", " ", "(", "v", ")", " ", "in", " ", "(", "a", " ", "+", " ", "b", ")", " ", "LBR", " ", "%>", "<%=", " ", "v", " ", "%>", "<%", " ", "RBR">>)],
+           [n |-> "appendfield", vars |-> 2, src |-> C(<<"let", " ", "x", " ", "=", " ", "a", " ", "+", " ", "b">>) \o E(<<"x", ".", "Name">>)],
+           [n |-> "appendmeth:MethodByName", vars |-> 2, src |-> C(<<"let", " ", "x", " ", "=", " ", "a", " ", "+", " ", "b">>) \o E(<<"x", ".", "MethodByName", "(", "QUOT", "n", "QUOT", ")">>)],
+           [n |-> "appendmeth:Index", vars |-> 2, src |-> C(<<"let", " ", "x", " ", "=", " ", "a", " ", "+", " ", "b">>) \o E(<<"x", ".", "Index", "(", "0", ")", ".", "Elem", "(", ")">>)],
+           [n |-> "appendmeth:Len", vars |-> 2, src |-> C(<<"let", " ", "x", " ", "=", " ", "a", " ", "+", " ", "b">>) \o E(<<"x", ".", "Len", "(", ")">>)] }
     [] fam = "member" ->
          { [n |-> "field", vars |-> 1, src |-> E(<<"a", ".", "Name">>)],
            [n |-> "missing", vars |-> 1, src |-> E(<<"a", ".", "Nope">>)],
@@ -98,7 +110,13 @@ FormsOf(fam) ==
            [n |-> "userfn0", vars |-> 1, src |-> C(<<"let", " ", "f", " ", "=", " ", "fn", "(", "p", ",", " ", "q", ")", " ", "LBR", " ", "return", " ", "p", " ", "RBR">>) \o E(<<"f", "(", "a", ")">>)],
            [n |-> "userfn3", vars |-> 1, src |-> C(<<"let", " ", "f", " ", "=", " ", "fn", "(", "p", ")", " ", "LBR", " ", "return", " ", "p", " ", "RBR">>) \o E(<<"f", "(", "a", ",", " ", "a", ",", " ", "a", ")">>)],
            [n |-> "chaincall", vars |-> 2, src |-> E(<<"a", "(", "b", ")", ".", "Name">>)],
-           [n |-> "callcall", vars |-> 1, src |-> E(<<"a", "(", ")", "(", ")">>)] }
+           [n |-> "callcall", vars |-> 1, src |-> E(<<"a", "(", ")", "(", ")">>)],
+           \* a path continued after a call (the call may return nothing at all)
+           [n |-> "chaincall0", vars |-> 1, src |-> E(<<"a", "(", ")", ".", "Name">>)],
+           [n |-> "chaincallidx", vars |-> 1, src |-> E(<<"a", "(", ")", "[", "0", "]">>)],
+           [n |-> "chaincallmeth", vars |-> 1, src |-> E(<<"a", "(", ")", ".", "Hello", "(", ")">>)],
+           [n |-> "chainmethvoid", vars |-> 1, src |-> E(<<"a", ".", "Touch", "(", ")", ".", "Name">>)],
+           [n |-> "letvoid", vars |-> 2, src |-> C(<<"let", " ", "x", " ", "=", " ", "a", "(", "b", ")">>) \o E(<<"x">>)] }
     [] fam = "builtin" ->
          { [n |-> "b1:" \o h, vars |-> 1, src |-> E(<<h, "(", "a", ")">>)] :
              h \in {"len", "raw", "htmlEscape", "jsEscape", "toJSON", "json", "until", "inspect", "debug", "env", "capitalize", "pluralize", "ordinalize", "contentOf", "truncate", "partial", "underscore", "pathFor", "form", "formFor", "markdown", "camelize", "singularize", "dasherize", "humanize"} }
